@@ -2,6 +2,7 @@
 import re
 
 import common
+import hirq as H
 import facts
 import fieldflow as ff
 import e7_tables as e7
@@ -176,6 +177,56 @@ def check(rep, F, tier, replay=None):
             rep.violation("SIB-datums", "plutuslist-ops", "calc_script_data_hash uses PlutusList::%s but get_witness_set uses PlutusList::%s: the hashed datum list and the emitted one can differ" % (a, b), sets)
     # BODY
     bodyorigins.check(rep, F, only=["inputs", "collateral", "required_signers", "reference_inputs", "certs", "withdrawals", "voting_procedures", "voting_proposals", "mint"])
+    # DEDUP-prim: what PlutusWitnesses::collect treats as "the same" script / datum / redeemer
+    rep.rule("DEDUP-prim", "PlutusWitnesses::collect de-duplicates scripts, datums and redeemers with an ordered-set insert each (for datums the order includes the preserved original bytes: two datums equal as values but with different bytes have different hashes and are both required); no `contains` / `any` / `position` based test")
+    cid = find_fn(rep, F, "PlutusWitnesses::collect")
+    if cid:
+        ins = []
+        other = []
+        for sub in [cid] + [c for c in F.fns if c.startswith(cid + "::{closure")]:
+            for c in F.calls(sub):
+                to = c.to or ""
+                ga = F.fns[sub]["bbs"][c.bb]["t"][2].get("ga") or ""
+                if to.endswith("BTreeSet::<T, A>::insert"):
+                    ins.append(ga)
+                elif to.rsplit("::", 1)[-1] in ("contains", "any", "position", "find", "contains_key", "dedup", "dedup_by") or to.endswith("HashSet::<T, S>::insert"):
+                    other.append(to)
+        rep.inst("DEDUP-prim", 3)
+        for what, needle in (("scripts", "PlutusScript"), ("datums", "PlutusData"), ("redeemers", "Redeemer")):
+            if not any(needle in g for g in ins):
+                rep.violation("DEDUP-prim", "collect|%s" % what, "PlutusWitnesses::collect no longer de-duplicates %s with an ordered-set insert: required witnesses can be dropped (equal by a weaker test) or repeated" % what, {})
+        if other:
+            rep.violation("DEDUP-prim", "collect|weak|%s" % ",".join(sorted(set(H.short(o) for o in other))), "PlutusWitnesses::collect tests membership with %s: a weaker equality than the witness set's own (datums with equal value but different preserved bytes would be merged although both hashes are required)" % sorted(set(H.short(o) for o in other)), {})
+    # BOOT-set: one fake bootstrap witness per distinct Byron address over inputs AND collateral
+    rep.rule("BOOT-set", "fake_full_tx merges the Byron addresses of inputs and collateral in an ordered set before counting / creating fake bootstrap witnesses (an address used for both is witnessed once)")
+    fid = find_fn(rep, F, "builders::tx_builder::fake_full_tx")
+    if fid:
+        fn = F.fns[fid]
+        org = ff.Origins(F, fid)
+        n_b = 0
+        badc = []
+        has_len = has_ext = False
+        for c in F.calls(fid):
+            to = c.to or ""
+            if to.endswith("get_bootstraps"):
+                continue
+            t = fn["bbs"][c.bb]["t"]
+            o = set()
+            for a in t[3]:
+                o |= org.of_operand(a)
+            if not any("get_bootstraps@" in x for x in o):
+                continue
+            n_b += 1
+            if "BTreeSet" in to and to.endswith("::len"):
+                has_len = True
+            if "BTreeSet" in to and to.endswith("::extend"):
+                has_ext = True
+            if ("Vec<" in to or "vec::Vec" in to or "Chain" in to or to.endswith("Iterator::collect") or to.endswith("Iterator::chain")) and "ByronAddress" not in to:
+                badc.append(to)
+        rep.inst("BOOT-set")
+        if not (has_len and has_ext) or badc:
+            rep.violation("BOOT-set", "fake_full_tx|%s" % ("no-set" if not (has_len and has_ext) else "vec"), "fake_full_tx no longer merges the Byron addresses of inputs and collateral in a BTreeSet (calls on the merged collection: %s): an address funding both a regular and a collateral input gets two fake witnesses, the predicted size exceeds the signed size by more than one key witness" % (sorted(set(H.short(b) for b in badc)) or "no BTreeSet::extend / len"), {})
+        rep.floor("calls consuming the collected Byron addresses in fake_full_tx", 4, n_b)
     return rep.finish(
         EXPLANATION,
         ["tables/c18_cert_signers.json transcribes the ledger's required-key rules", "fake witnesses have real sizes (fakes.rs)", "Ed25519KeyHashes de-duplicates (C16)"],
